@@ -64,6 +64,7 @@ static int last_refused_byte = -1;
 static int in_service;
 static long n_handler_calls, n_writes, n_trig_calls, n_reads, n_u_hold;
 static int early_isolation_reported;
+static int read_found_empty;   /* an io read attempt of the current cat_service call returned 0 */
 /* running hashes (C12 differential inside the fuzz target) and the streaming C01 monitor */
 static uint64_t out_hash, cb_hash;
 static long mon_lines_terminated, mon_results_done;
@@ -272,16 +273,21 @@ static int io_r(char *c)
         int i, f, k;
         if (mtx_on && locked != 1)
                 violation("io-read-outside-lock");
-        if (in_probe)
+        if (in_probe == 1)
+                return 0;               /* the probed call had polled the input and found it empty: no NEW byte for the probe */
+        if (inpos >= inlen) {
+                read_found_empty = 1;
                 return 0;
-        if (inpos >= inlen)
+        }
+        if (barrier_pending()) {
+                read_found_empty = 1;
                 return 0;
-        if (barrier_pending())
-                return 0;
+        }
         if (!sched_next(rs, nrs, &rsi, &rsleft)) {
                 refused_r++;
                 if (midline)
                         refused_r_midline++;
+                read_found_empty = 1;
                 return 0;
         }
         activity = 1;
@@ -1007,6 +1013,7 @@ void w_run(long budget, long stall_n)
         for (stepno = 0; stepno < budget; stepno++) {
                 fire_actions(0, stepno);
                 activity = 0;
+                read_found_empty = 0;
                 s = service_call();
                 if (s != last) {
                         emit("S %ld %d\n", stepno, s);
@@ -1034,7 +1041,9 @@ void w_run(long budget, long stall_n)
                         okrun++;
                         if (flags & WF_PROBE) {
                                 int ps, pa;
-                                in_probe = 1;
+                                /* in_probe 1: withhold input (the probed call saw the input empty); 2: the probed call returned OK
+                                 * without ever finding the input empty - bytes that were already available are not "new" */
+                                in_probe = read_found_empty ? 1 : 2;
                                 activity = 0;
                                 ps = service_call();
                                 pa = activity;
